@@ -373,6 +373,8 @@ package writer
 //@   ensures[C12] w.err == nil ==> STK7(w)
 //@   ensures[C12] STICKY(w, result)
 //@   ensures[C12] old(w.err) == nil && result == nil ==> w.err == nil
+//   C01: stack discipline - a list entry starts at the buffer end and at the end of the element stack
+//@   ensures[C01] old(w.err) == nil && result == nil ==> NS(w) == old(NS(w)) + 1 && SE(w, NS(w) - 1).type_ == 2 && SE(w, NS(w) - 1).start == old(BL(w)) && SE(w, NS(w) - 1).tableStart == old(NE(w)) && NE(w) == old(NE(w)) && NF(w) == old(NF(w))
 
 //@ func (*writer).beginElement
 //@   safety[C12]
@@ -395,6 +397,8 @@ package writer
 //@   ensures[C12] w.err == nil ==> STK7(w)
 //@   ensures[C12] STICKY(w, result)
 //@   ensures[C12] old(w.err) == nil && result == nil ==> w.err == nil
+//   C01: stack discipline - an element is begun only directly inside a list
+//@   ensures[C01] old(w.err) == nil && result == nil ==> old(NS(w)) >= 1 && old(SE(w, NS(w) - 1).type_) == 2 && NS(w) == old(NS(w)) + 1 && SE(w, NS(w) - 1).type_ == 3 && SE(w, NS(w) - 1).start == old(BL(w))
 
 //@ func (*writer).element
 //@   safety[C12]
@@ -456,6 +460,11 @@ package writer
 //@   ensures[C12] w.err == nil ==> STK7(w)
 //@   ensures[C12] STICKY(w, result1)
 //@   ensures[C12] old(w.err) == nil && result1 == nil ==> w.err == nil
+//   C01: stack discipline - [.., list, element, data] becomes [.., list] with one more element
+//   entry: the END of the data relative to the list start
+//@   ensures[C01] old(w.err) == nil && result1 == nil ==> old(NS(w)) >= 3 && old(SE(w, NS(w) - 1).type_) == 1 && old(SE(w, NS(w) - 2).type_) == 3 && old(SE(w, NS(w) - 3).type_) == 2 && NS(w) == old(NS(w)) - 2 && NE(w) == old(NE(w)) + 1
+//@   ensures[C01] old(w.err) == nil && result1 == nil && old(BL(w)) <= 4294967295 ==> EE(w, NE(w) - 1).Offset == old(SE(w, NS(w) - 1).tableStart) - old(SE(w, NS(w) - 3).start)
+//@   ensures[C01] old(w.err) == nil && result1 == nil ==> (forall k :: 0 <= k && k < old(NE(w)) ==> EE(w, k).Offset == old(EE(w, k).Offset))
 
 //@ func (*writer).endList
 //@   safety[C12]
@@ -517,6 +526,8 @@ package writer
 //@   ensures[C12] w.err == nil ==> STK7(w)
 //@   ensures[C12] STICKY(w, result)
 //@   ensures[C12] old(w.err) == nil && result == nil ==> w.err == nil
+//   C01: stack discipline - a message entry starts at the buffer end and at the end of the field stack
+//@   ensures[C01] old(w.err) == nil && result == nil ==> NS(w) == old(NS(w)) + 1 && SE(w, NS(w) - 1).type_ == 4 && SE(w, NS(w) - 1).start == old(BL(w)) && SE(w, NS(w) - 1).tableStart == old(NF(w)) && NE(w) == old(NE(w)) && NF(w) == old(NF(w))
 
 //@ func (*writer).beginField
 //@   safety[C12]
@@ -539,6 +550,8 @@ package writer
 //@   ensures[C12] w.err == nil ==> STK7(w)
 //@   ensures[C12] STICKY(w, result)
 //@   ensures[C12] old(w.err) == nil && result == nil ==> w.err == nil
+//   C01: stack discipline - a field is begun only directly inside a message and remembers its tag
+//@   ensures[C01] old(w.err) == nil && result == nil ==> old(NS(w)) >= 1 && old(SE(w, NS(w) - 1).type_) == 4 && NS(w) == old(NS(w)) + 1 && SE(w, NS(w) - 1).type_ == 5 && SE(w, NS(w) - 1).tableStart == tag && SE(w, NS(w) - 1).start == old(BL(w))
 
 //@ func (*writer).field
 //@   safety[C12]
@@ -601,6 +614,10 @@ package writer
 //@   ensures[C12] w.err == nil ==> STK7(w)
 //@   ensures[C12] STICKY(w, result1)
 //@   ensures[C12] old(w.err) == nil && result1 == nil ==> w.err == nil
+//   C01: stack discipline - [.., message, field, data] becomes [.., message] with one more field
+//   entry: the field's tag and the END of the data relative to the message start
+//@   ensures[C01] old(w.err) == nil && result1 == nil ==> old(NS(w)) >= 3 && old(SE(w, NS(w) - 1).type_) == 1 && old(SE(w, NS(w) - 2).type_) == 5 && old(SE(w, NS(w) - 3).type_) == 4 && NS(w) == old(NS(w)) - 2 && NF(w) == old(NF(w)) + 1
+//@   ensures[C01] old(w.err) == nil && result1 == nil && old(BL(w)) <= 4294967295 && 0 <= old(SE(w, NS(w) - 2).tableStart) && old(SE(w, NS(w) - 2).tableStart) <= 65535 ==> (exists p :: old(SE(w, NS(w) - 3).tableStart) <= p && p < NF(w) && FE(w, p).Tag == old(SE(w, NS(w) - 2).tableStart) && FE(w, p).Offset == old(SE(w, NS(w) - 1).tableStart) - old(SE(w, NS(w) - 3).start))
 
 //@ func (*writer).endMessage
 //@   safety[C12]
